@@ -100,8 +100,41 @@ def expand_small_reps(segs):
 def _same_cond(a, b, facts):
     return a == b or equal(ite(a, ONE, ZERO), ite(b, ONE, ZERO), facts)[0]
 
-def compare(got, exp_segs, exp_tags, facts=()):
-    """-> list of mismatches [(offset str, what)]; wildcard values (ANY) match any term of the same width"""
+def resolve_conds(segs, facts):
+    """conditional segments whose condition is decided by the facts are replaced by the branch taken"""
+    out = []
+    for s in segs:
+        if s[0] == 'cond':
+            b = ite(s[1], ONE, ZERO)
+            if equal(b, ONE, facts)[0]: out.extend(resolve_conds(list(s[2]), facts))
+            elif equal(b, ZERO, facts)[0]: out.extend(resolve_conds(list(s[3]), facts))
+            else: out.append(('cond', s[1], tuple(resolve_conds(list(s[2]), facts)), tuple(resolve_conds(list(s[3]), facts))))
+        elif s[0] == 'rep': out.append(('rep', s[1], s[2], tuple(resolve_conds(list(s[3]), facts))))
+        else: out.append(s)
+    return out
+
+def compare(got, exp_segs, exp_tags, facts=(), _depth=0):
+    """-> list of mismatches [(offset str, what)]; wildcard values (ANY) match any term of the same width.
+    When the two sides distribute their conditions differently (`if c {A} ; if c {X}` against `if c {A; X}`, an early
+    return on one case, ...) the comparison is repeated under each truth value of the first condition involved."""
+    mism = _compare(got, exp_segs, exp_tags, facts)
+    if not mism or _depth >= 8: return mism
+    from model import _specialise
+    def first_cond(segs):
+        for s in segs:
+            if s[0] == 'cond': return s[1]
+        return None
+    c = first_cond(norm_segs(list(exp_segs))) or first_cond(norm_segs(list(got)))
+    if c is None: return mism
+    if c[0] == 'bnot': c = c[1]
+    for v in (True, False):
+        fx = tuple(facts) + ((c,) if v else (bnot(c),))
+        g_ = resolve_conds(_specialise(list(got), c, v), fx)
+        e_ = resolve_conds(_specialise(list(exp_segs), c, v), fx)
+        if compare(g_, e_, [None] * len(e_), fx, _depth + 1): return mism
+    return []
+
+def _compare(got, exp_segs, exp_tags, facts=()):
     got = explode(norm_segs(expand_small_reps(norm_segs(list(got)))))
     exp_segs, exp_tags = merge_tagged(exp_segs, exp_tags)
     exp, tags = expl_with_tags(exp_segs, exp_tags)
